@@ -339,8 +339,13 @@ class VGen:
         b = Gen(rng, params=self.params, p_dep=0.3).prim1("s")
         if rng.random() < 0.25:
             # dependent first factor: its parameters are generated for values in [0, 1], so `s` ranges in [0, 1]
-            lo = Fr(rng.randint(0, 8), 16)
-            b = Node("interval", "s", [PF([c(lo)]), PF([c(lo + Fr(rng.randint(2, 8), 16))])])
+            lo = Fr(rng.randint(0, 4), 16)
+            w = Fr(rng.randint(2, 8), 16)
+            if self.params and rng.random() < 0.4:
+                pv = ("*", c(Fr(1, 4)), geomgen.v(rng.choice(self.params)))
+                b = Node("interval", "s", [PF([("+", c(lo), pv)]), PF([("+", c(lo + w), pv)])])
+            else:
+                b = Node("interval", "s", [PF([c(lo)]), PF([c(lo + w)])])
             a = Gen(rng, params=self.params + ["s"], p_dep=0.9).prim(var)
         else:
             a = self.known(min(depth, 2), var)
@@ -666,15 +671,14 @@ def check_grid(rep, inp, base, base_b, env, got, want, x, pts, extra, node):
             if got and not lattice_complete(pts, base, env, node):
                 rep.fail(f"grid sampling with density returned {got} points that do not form a complete regular (barycentric) grid", inp)
         else:
-            lo = min([tlt] + [tri_count(a, b, True) for a, b in cands])
-            hi = max([tle] + [tri_count(a, b, False) for a, b in cands])
+            lo = min(min([tlt] + [tri_count(a, b, True) for a, b in cands]), min(want))
+            hi = min(max([tle] + [tri_count(a, b, False) for a, b in cands]), n0)
             if not (lo <= got <= hi):
-                rep.disagree("triangle density grid: lattice points of the n1 x n2 barycentric grid with x+y <= 1", inp, got, [lo, hi])
+                rep.disagree("triangle density grid: the first ceil(d*v) lattice points of the n1 x n2 barycentric grid with x+y <= 1",
+                             inp, got, [lo, hi])
             if got > n0:
-                within = got <= hi
                 rep.fail(f"triangle grid sampling with density returned {got} points, more than ceil(d*measure) = {n0} "
-                         f"(the {n1}x{n2} lattice has {tle} points with x+y <= 1)", inp,
-                         finding="triangle_density_grid_exceeds" if within else None)
+                         f"(the {n1}x{n2} lattice has {tle} points with x+y <= 1)", inp)
         return
     if got > n0:
         rep.fail(f"grid sampling with density returned {got} points, more than ceil(d*measure) = {n0}", inp)
@@ -771,10 +775,7 @@ def check_case(case, replies, rep):
     if model_err == "err:montecarlo":
         # dependent product: the code estimates from 10 random points; only sanity is demanded
         rep.count("dependent-product(estimate)")
-        if err:
-            rep.count("dependent-product-raised")
-        elif not (torch.isfinite(v).all() and (v > 0).all()):
-            rep.fail(f"volume estimate of a dependent product is not a positive finite number: {v.reshape(-1).tolist()}", inp)
+        check_dependent_product(case, node, v, err, rep, inp)
         return
     if err:
         if model_err:
@@ -855,6 +856,56 @@ def check_case(case, replies, rep):
                              f"domain at these parameter values is {true:.7g}", rinp)
     if case.get("density") and k <= 1:
         check_density(case, node, dom, pr, rep, extra)
+
+
+def check_dependent_product(case, node, v, err, rep, inp):
+    """the library estimates |A x B| = integral over B of |A(b)| from 10 random points b: the estimate of every row lies
+    between min and max of |A(b)| times |B| (exactly |A|*|B| when |A(b)| does not depend on b) — independent of the draws"""
+    import torch
+    envs = [fenv(e) for e in (case["envs"] or [{}])]
+    k = len(case["envs"])
+    distinct = len({json_key(e) for e in case["envs"]})
+    top = node
+    if top.kind != "prod":
+        if err:
+            rep.count("dependent-product-boundary-raised")
+        return
+    a, b = top.kids
+    if err:
+        rep.fail(f"volume() of a dependent product raised {err}", inp,
+                 finding="dependent_product_volume_rows" if distinct >= 2 else None)
+        return
+    vals = v.reshape(-1).tolist()
+    if not all(math.isfinite(x) and x > 0 for x in vals):
+        rep.fail(f"volume estimate of a dependent product is not a positive finite number: {vals}", inp)
+        return
+    if len(vals) not in (1, max(k, 1)):
+        rep.fail(f"volume() of a dependent product returned {len(vals)} values for {k} parameter rows", inp)
+        return
+    bad = []
+    for i, e in enumerate(envs):
+        got = vals[i] if len(vals) > 1 else vals[0]
+        (l,), (u,) = b.pfs[0].eval(e), b.pfs[1].eval(e)
+        ms = []
+        for j in range(33):
+            ee = dict(e)
+            ee["s"] = [l + (u - l) * Fr(j, 32)]
+            ms.append(measure(a, ee))
+        lo, hi = min(ms) * float(u - l), max(ms) * float(u - l)
+        rep.count("dependent-product:exact" if hi - lo <= 1e-9 * hi else "dependent-product:range")
+        if not (lo * (1 - 1e-4) - 1e-6 <= got <= hi * (1 + 1e-4) + 1e-6):
+            bad.append((i, got, lo, hi))
+    shape_bad = k >= 2 and tuple(v.shape) != (k, 1) and len(vals) == k
+    if bad or shape_bad:
+        i, got, lo, hi = bad[0] if bad else (0, vals[0], 0, 0)
+        what = (f"volume() of a dependent product: row {i} is {got:.6g}, but |A(b)|*|B| lies in [{lo:.6g}, {hi:.6g}] for every b "
+                f"(all rows: {[round(x, 4) for x in vals]}, shape {tuple(v.shape)})") if bad else \
+               f"volume() of a dependent product returned shape {tuple(v.shape)} for {k} parameter rows, ({k}, 1) expected"
+        rep.fail(what, inp, finding="dependent_product_volume_rows" if distinct >= 2 else None)
+
+
+def json_key(e):
+    return tuple(sorted((k_, tuple(v_)) for k_, v_ in e.items()))
 
 
 def vfree_all(n):
